@@ -247,6 +247,9 @@ class Cas:
         handles = self._read_handles
         out: dict[str, list[tuple[ast.AST, str]]] = {}
         for n in walk_no_nested(self.fa.fi.node):
+            if isinstance(n, ast.NamedExpr) and isinstance(n.target, ast.Name) and isinstance(n.value, ast.Call):
+                # `(h := compute_hash(text)) != base_hash`: the binding written inside the comparison
+                n = ast.copy_location(ast.Assign(targets=[n.target], value=n.value), n)
             if isinstance(n, ast.Assign) and len(n.targets) == 1 and isinstance(n.targets[0], ast.Name) and isinstance(n.value, ast.Call):
                 c = n.value
                 fname = ast.unparse(c.func)
@@ -283,7 +286,7 @@ class Cas:
                 neg = True
             if isinstance(t, ast.Compare) and len(t.ops) == 1 and isinstance(t.ops[0], (ast.NotEq, ast.Eq)):
                 l, r = t.left, t.comparators[0]
-                sides = [l, r]
+                sides = [x.target if isinstance(x, ast.NamedExpr) else x for x in (l, r)]
                 bh_side = [s for s in sides if isinstance(s, ast.Name) and s.id in self.bh]
                 h_side = [s for s in sides if isinstance(s, ast.Name) and s.id in self.hash_vars]
                 if len(bh_side) == 1 and len(h_side) == 1:
